@@ -119,6 +119,7 @@ partial def go (rc : Bool) (steps res : List String) (k : Nat) (pool : List (Opt
       xs' := stepsX xs f0 [.assign (← argN 2) ix]
     | "selfassign" => let _ ← ent 1; xs' := stepsX xs f0 [.assign (← argN 1) (← argN 1)]
     | "kill" => let ix ← argN 1; let _ ← ent 1; pool' := pool.set ix none; xs' := stepsX xs f0 [.destroy ix]
+    | "burst" => let _ ← ent 1; pure ()      -- n copies created and destroyed again: no observable change
     | "ap1" =>
       let (a, d) ← ent 1; let o ← argN 2
       pool' := pool ++ [some (apply1 (op1 o) a, op1 o d)]
